@@ -770,4 +770,342 @@ theorem hostLoad_tags_closed {f : HostFile} {c : HostConf} (h : hostLoad f = .ok
     rw [this]; rfl
   · simp at hin
 
+/-! ### documented cluster_table.data ⇒ accepted -/
+theorem subClusterLoop_doc : ∀ (l : List (Option Backend)) (a : Bool), (∀ b ∈ l, docBackend b = true) →
+    subClusterLoop l a = .ok (a || l.any posWeight)
+  | [], a, _ => by simp [subClusterLoop]
+  | b :: rest, a, h => by
+    have hb := h b (by simp)
+    cases b with
+    | none => simp [docBackend] at hb
+    | some bb =>
+      obtain ⟨n, ad, p, w⟩ := bb
+      simp only [docBackend, Bool.and_eq_true] at hb
+      obtain ⟨⟨⟨hn, ha⟩, hp⟩, hw⟩ := hb
+      cases n <;> cases ad <;> cases p <;> cases w <;> simp_all
+      rename_i n ad p w
+      unfold subClusterLoop
+      simp only [backendConfCheck, deref, Res.bind, Option.isNone_some, Bool.false_eq_true, if_false]
+      rw [subClusterLoop_doc rest _ h.2]
+      simp [posWeight, Bool.or_assoc]
+
+theorem ctLoad_of_doc {f : CtFile} (h : docCt f = true) : ∃ n, ctLoad f = .ok n := by
+  unfold docCt at h
+  cases hv : f.version with
+  | none => simp [hv] at h
+  | some v =>
+    cases hc : f.config with
+    | none => simp [hc] at h
+    | some cfg =>
+      simp only [hv, hc, Option.isSome_some, Bool.true_and, List.all_eq_true, Bool.and_eq_true] at h
+      refine ⟨cfg.length, ?_⟩
+      unfold ctLoad
+      simp only [hv, hc, deref_some, Res.bind]
+      have : forAllM (fun (kv : String × List (String × List (Option Backend))) =>
+          forAllM (fun (sv : String × List (Option Backend)) => subClusterCheck sv.2) kv.2) cfg = .ok () := by
+        refine (forAllM_ok_iff cfg).mpr fun kv hkv => (forAllM_ok_iff kv.2).mpr fun sv hsv => ?_
+        obtain ⟨h1, h2⟩ := h kv hkv sv hsv
+        unfold subClusterCheck
+        rw [subClusterLoop_doc sv.2 false h1]
+        simp only [Res.bind, Bool.false_or, failIf_ok_iff, Bool.not_eq_false']
+        simpa using h2
+      rw [this]
+
+/-! ### documented route_rule.data ⇒ accepted -/
+abbrev Key := (Bool × String) × (Bool × String)
+
+/-- the keys still to be inserted are valid, pairwise distinct and not yet in the tree -/
+def Free (t : RuleTree) (ks : List (Option Key)) : Prop :=
+  (∀ k ∈ ks, k.isSome = true) ∧ ks.Nodup ∧ ∀ k ∈ ks, ∀ e ∈ t, k ≠ some e.1
+
+theorem nodupKeys_iff : ∀ ks : List (Option Key), nodupKeys ks = true ↔ (∀ k ∈ ks, k.isSome = true) ∧ ks.Nodup
+  | [] => by simp [nodupKeys]
+  | x :: xs => by
+    simp only [nodupKeys, Bool.and_eq_true, Bool.not_eq_true', List.mem_cons, forall_eq_or_imp, List.nodup_cons,
+      nodupKeys_iff xs]
+    constructor
+    · rintro ⟨⟨h1, h2⟩, h3, h4⟩; exact ⟨⟨h1, h3⟩, by simpa using h2, h4⟩
+    · rintro ⟨⟨h1, h3⟩, h2, h4⟩; exact ⟨⟨h1, by simpa using h2⟩, h3, h4⟩
+
+theorem treeHas_false {t : RuleTree} {k : Key} (h : ∀ e ∈ t, (some k : Option Key) ≠ some e.1) : treeHas t k = false := by
+  unfold treeHas
+  rw [Bool.eq_false_iff]
+  intro hc
+  simp only [List.any_eq_true, beq_iff_eq] at hc
+  obtain ⟨e, he, hk⟩ := hc
+  exact h e he (by rw [hk])
+
+theorem insertPaths_ok (hk : Bool × String) (cl : String) :
+    ∀ (ps : List String) (t : RuleTree) (rest : List (Option Key)),
+      Free t (ps.map (fun p => (pathKey p).map fun pk => (hk, pk)) ++ rest) →
+      ∃ t', insertPaths hk cl ps t = .ok t' ∧ Free t' rest
+  | [], t, rest, h => ⟨t, by simp [insertPaths], by simpa using h⟩
+  | p :: ps, t, rest, h => by
+    obtain ⟨h1, h2, h3⟩ := h
+    simp only [List.map_cons, List.cons_append] at h1 h2 h3
+    have hs := h1 ((pathKey p).map fun pk => (hk, pk)) (by simp)
+    cases hp : pathKey p with
+    | none => simp [hp] at hs
+    | some pk =>
+      rw [hp] at h1 h2 h3
+      simp only [Option.map_some] at h1 h2 h3
+      rw [List.nodup_cons] at h2
+      have hnot : treeHas t (hk, pk) = false := treeHas_false fun e he => h3 _ (by simp) e he
+      have hfree : Free (t ++ [((hk, pk), cl)]) (ps.map (fun p => (pathKey p).map fun pk => (hk, pk)) ++ rest) := by
+        refine ⟨fun k hkm => h1 k (by simp [hkm]), h2.2, fun k hkm e he => ?_⟩
+        simp only [List.mem_append, List.mem_singleton] at he
+        rcases he with he | he
+        · exact h3 k (by simp [hkm]) e he
+        · subst he
+          intro hc
+          exact h2.1 (hc ▸ hkm)
+      obtain ⟨t', ht', hf'⟩ := insertPaths_ok hk cl ps _ rest hfree
+      exact ⟨t', by unfold insertPaths; simp [hp, hnot, ht'], hf'⟩
+
+theorem insertHosts_ok (paths : List String) (cl : String) :
+    ∀ (hs : List String) (t : RuleTree) (rest : List (Option Key)), (∀ h ∈ hs, h ≠ "") →
+      Free t (hs.flatMap (fun h => paths.map fun p => (pathKey p).map fun pk => (hostKey h, pk)) ++ rest) →
+      ∃ t', insertHosts paths cl hs t = .ok t' ∧ Free t' rest
+  | [], t, rest, _, h => ⟨t, by simp [insertHosts], by simpa using h⟩
+  | h :: hs, t, rest, hne, hf => by
+    simp only [List.flatMap_cons, List.append_assoc] at hf
+    obtain ⟨t1, ht1, hf1⟩ := insertPaths_ok (hostKey h) cl paths t _ hf
+    obtain ⟨t', ht', hf'⟩ := insertHosts_ok paths cl hs t1 rest (fun x hx => hne x (by simp [hx])) hf1
+    have : (h == "") = false := by simpa using hne h (by simp)
+    exact ⟨t', by unfold insertHosts; simp [this, ht1, Res.bind, ht'], hf'⟩
+
+theorem hostPatternOk_ne {h : String} (hp : hostPatternOk h = true) : h ≠ "" := by
+  unfold hostPatternOk at hp
+  simp only [Bool.and_eq_true, bne_iff_ne, ne_eq] at hp
+  exact hp.1.1
+
+theorem convertBasicRules_ok : ∀ (rs : List BasicRuleFile) (t : RuleTree) (acc : List BasicRule),
+    (∀ r ∈ rs, docBasicRule r = true) → Free t (rs.flatMap ruleKeys) →
+    ∃ res, convertBasicRules rs t acc = .ok res
+  | [], t, acc, _, _ => ⟨(t, acc), by simp [convertBasicRules]⟩
+  | r :: rs, t, acc, hd, hf => by
+    have hr := hd r (by simp)
+    unfold docBasicRule at hr
+    simp only [Bool.and_eq_true, Bool.not_eq_true', List.all_eq_true] at hr
+    obtain ⟨⟨⟨hcn, hne⟩, hhosts⟩, hpaths⟩ := hr
+    cases hc : r.clusterName with
+    | none => simp [hc] at hcn
+    | some cn =>
+      simp only [List.flatMap_cons] at hf
+      have hne' : ∀ h ∈ (if r.hostname.isEmpty then ["*"] else r.hostname), h ≠ "" := by
+        intro h hh
+        split at hh
+        · simp at hh; subst hh; decide
+        · exact hostPatternOk_ne (hhosts h hh)
+      obtain ⟨t1, ht1, hf1⟩ := insertHosts_ok (if r.path.isEmpty then ["*"] else r.path) cn
+        (if r.hostname.isEmpty then ["*"] else r.hostname) t _ hne' (by simpa [ruleKeys] using hf)
+      obtain ⟨res, hres⟩ := convertBasicRules_ok rs t1 (acc ++ [{ hostname := r.hostname, path := r.path, clusterName := cn }])
+        (fun x hx => hd x (by simp [hx])) hf1
+      refine ⟨res, ?_⟩
+      unfold convertBasicRules
+      have h1 : (r.hostname.all hostPatternOk) = true := by simpa [List.all_eq_true] using hhosts
+      have h2 : (r.path.all pathPatternOk) = true := by simpa [List.all_eq_true] using hpaths
+      simp only [hc, hne, h1, h2, Bool.false_eq_true, if_false, Bool.not_true, deref, Res.bind, treeInsert, ht1, hres]
+
+theorem convertBasic_ok : ∀ (l : List (String × List BasicRuleFile)) (acc : List (String × (RuleTree × List BasicRule))),
+    (∀ pr ∈ l, (pr.2.all docBasicRule && nodupKeys (pr.2.flatMap ruleKeys)) = true) →
+    ∃ res, convertBasic l acc = .ok res
+  | [], acc, _ => ⟨acc, by simp [convertBasic]⟩
+  | (p, rules) :: rest, acc, h => by
+    have hp := h (p, rules) (by simp)
+    simp only [Bool.and_eq_true, List.all_eq_true] at hp
+    have hfree : Free [] (rules.flatMap ruleKeys) := by
+      obtain ⟨a, b⟩ := (nodupKeys_iff _).mp hp.2
+      exact ⟨a, b, fun _ _ e he => by simp at he⟩
+    obtain ⟨tr, htr⟩ := convertBasicRules_ok rules [] [] hp.1 hfree
+    obtain ⟨res, hres⟩ := convertBasic_ok rest (mapSet acc p tr) fun pr hpr => h pr (by simp [hpr])
+    exact ⟨res, by unfold convertBasic; simp [htr, Res.bind, hres]⟩
+
+theorem convertAdvRules_ok (condOk : CondOk) : ∀ (rs : List AdvRuleFile) (acc : List (String × String)),
+    (∀ r ∈ rs, docAdvRule condOk r = true) →
+    ∃ res, convertAdvRules condOk rs acc = .ok res
+  | [], acc, _ => ⟨acc, by simp [convertAdvRules]⟩
+  | r :: rs, acc, h => by
+    have hr := h r (by simp)
+    simp only [docAdvRule, Bool.and_eq_true] at hr
+    cases hcn : r.clusterName with
+    | none => simp [hcn] at hr
+    | some cn =>
+      cases hc : r.cond with
+      | none => simp [hc] at hr
+      | some c =>
+        have hok : condOk c = true := by simpa [hc] using hr.2
+        obtain ⟨res, hres⟩ := convertAdvRules_ok condOk rs (acc ++ [(c, cn)]) fun x hx => h x (by simp [hx])
+        exact ⟨res, by unfold convertAdvRules; simp [hcn, hc, deref, Res.bind, hok, hres]⟩
+
+theorem convertAdv_ok (condOk : CondOk) : ∀ (l : List (String × List AdvRuleFile)) (acc : List (String × List (String × String))),
+    (∀ pr ∈ l, (pr.2.all (docAdvRule condOk)) = true) →
+    ∃ res, convertAdv condOk l acc = .ok res
+  | [], acc, _ => ⟨acc, by simp [convertAdv]⟩
+  | (p, rules) :: rest, acc, h => by
+    have hp := h (p, rules) (by simp)
+    simp only [List.all_eq_true] at hp
+    obtain ⟨rs, hrs⟩ := convertAdvRules_ok condOk rules [] hp
+    obtain ⟨res, hres⟩ := convertAdv_ok condOk rest (mapSet acc p rs) fun pr hpr => h pr (by simp [hpr])
+    exact ⟨res, by unfold convertAdv; simp [hrs, Res.bind, hres]⟩
+
+theorem routeLoad_of_doc (condOk : CondOk) {f : RouteFile} (h : docRoute condOk f = true) :
+    ∃ c, routeLoad condOk f = .ok c := by
+  unfold docRoute at h
+  simp only [Bool.and_eq_true, Bool.or_eq_true, List.all_eq_true] at h
+  obtain ⟨⟨⟨hv, hba⟩, hb⟩, ha⟩ := h
+  cases hver : f.version with
+  | none => simp [hver] at hv
+  | some v =>
+    have hB : ∀ b, f.basic = some b → ∃ res, convertBasic b [] = .ok res := fun b hfb =>
+      convertBasic_ok b [] fun pr hpr => by
+        have := hb pr (by simp [hfb, hpr]); simpa [Bool.and_eq_true, List.all_eq_true] using this
+    have hA : ∀ a, f.adv = some a → ∃ res, convertAdv condOk a [] = .ok res := fun a hfa =>
+      convertAdv_ok condOk a [] fun pr hpr => by
+        have := ha pr (by simp [hfa, hpr]); simpa [List.all_eq_true] using this
+    cases hfb : f.basic with
+    | none =>
+      cases hfa : f.adv with
+      | none => simp [hfb, hfa] at hba
+      | some a =>
+        obtain ⟨am, ham⟩ := hA a hfa
+        exact ⟨{ basic := [], adv := am }, by unfold routeLoad; simp [hver, hfb, hfa, deref, Res.bind, ham]⟩
+    | some b =>
+      obtain ⟨bm, hbm⟩ := hB b hfb
+      cases hfa : f.adv with
+      | none => exact ⟨{ basic := bm, adv := [] }, by unfold routeLoad; simp [hver, hfb, hfa, deref, Res.bind, hbm]⟩
+      | some a =>
+        obtain ⟨am, ham⟩ := hA a hfa
+        exact ⟨{ basic := bm, adv := am }, by unfold routeLoad; simp [hver, hfb, hfa, deref, Res.bind, hbm, ham]⟩
+
+/-! ### documented cluster_conf.data ⇒ accepted -/
+theorem backendBasicCheck_doc {c : BackendBasic} (h : docBackendBasic c = true) : ∃ r, backendBasicCheck c = .ok r := by
+  unfold docBackendBasic at h
+  unfold backendBasicCheck
+  cases hp : c.protocol with
+  | none =>
+    have hl : (lowerAscii "http" == "http") = true := by decide
+    simp only [Option.getD_none, deref_some, Res.bind, hl, Bool.true_or, if_true]
+    exact ⟨_, rfl⟩
+  | some p =>
+    rw [hp] at h
+    simp only [protoOk] at h
+    simp only [Option.getD_some, deref_some, Res.bind, h, if_true]
+    exact ⟨_, rfl⟩
+
+theorem backendCheckCheck_doc {c : BackendCheck} (h : docBackendCheck c = true) : ∃ r, backendCheckCheck c = .ok r := by
+  unfold docBackendCheck at h
+  simp only [Bool.and_eq_true, Bool.or_eq_true, beq_iff_eq, bne_iff_ne, ne_eq, decide_eq_true_eq] at h
+  obtain ⟨⟨h1, h2⟩, h3⟩ := h
+  unfold backendCheckCheck
+  simp only [deref_some, Res.bind]
+  have hs : (c.schem.getD "http" != "http" && c.schem.getD "http" != "tcp") = false := by
+    rcases h1 with h1 | h1 <;> simp [h1]
+  simp only [hs, Bool.false_eq_true, if_false]
+  have hn : ¬ (c.succNum.getD 1 < 1) := by omega
+  by_cases hh : c.schem.getD "http" = "http"
+  · rcases h2 with h2 | h2
+    · exact absurd hh h2
+    · simp [hh, h2.1, h2.2, failIf, hn]
+  · simp [hh, hn]
+
+theorem hashConfCheck_doc {c : HashConf} (h : docHashConf c = true) : ∃ r, hashConfCheck c = .ok r := by
+  unfold docHashConf at h
+  simp only [Bool.and_eq_true, Bool.or_eq_true, beq_iff_eq, Bool.not_eq_true'] at h
+  obtain ⟨h1, h2⟩ := h
+  unfold hashConfCheck
+  simp only [deref_some, Res.bind]
+  have hs : (c.hashStrategy.getD 1 != 0 && c.hashStrategy.getD 1 != 1 && c.hashStrategy.getD 1 != 2 &&
+      c.hashStrategy.getD 1 != 3) = false := by
+    rcases h1 with ((h1 | h1) | h1) | h1 <;> simp [h1]
+  simp only [hs, Bool.false_eq_true, if_false]
+  by_cases h02 : (c.hashStrategy.getD 1 == 0 || c.hashStrategy.getD 1 == 2) = true
+  · simp only [h02, if_true]
+    rcases h2 with h2 | h2
+    · simp only [Bool.or_eq_true, beq_iff_eq] at h02
+      simp [Bool.or_eq_false_iff] at h2
+      omega
+    · cases hh : c.hashHeader with
+      | none => simp [hh] at h2
+      | some hdr =>
+        simp only [hh, Bool.and_eq_true, bne_iff_ne, ne_eq] at h2
+        have hl : (hdr.length == 0) = false := by simpa using h2.1
+        simp only [deref_some, Res.bind, hl, Bool.false_eq_true, if_false]
+        cases hk : getCookieKey hdr with
+        | none => exact ⟨_, rfl⟩
+        | some k =>
+          have := h2.2
+          simp only [hk, bne_iff_ne, ne_eq] at this
+          have hk0 : (k.length == 0) = false := by simpa using this
+          simp only [hk0, Bool.false_eq_true, if_false]
+          exact ⟨_, rfl⟩
+  · simp only [h02, Bool.false_eq_true, if_false]
+    exact ⟨_, rfl⟩
+
+theorem gslbBasicCheck_doc {c : GslbBasic} (h : docGslbBasic c = true) : ∃ r, gslbBasicCheck c = .ok r := by
+  unfold docGslbBasic at h
+  simp only [Bool.and_eq_true] at h
+  obtain ⟨h1, h2⟩ := h
+  obtain ⟨hc, hhc⟩ := hashConfCheck_doc h1
+  unfold gslbBasicCheck
+  simp only [deref_some, Res.bind, hhc]
+  have h2' : (upperAscii (c.balanceMode.getD "WRR") == "WRR" || upperAscii (c.balanceMode.getD "WRR") == "WLC") = true := h2
+  simp only [h2', if_true]
+  exact ⟨_, rfl⟩
+
+theorem clusterConfCheck_doc {c : ClusterConf} (h : docClusterConf c = true) : ∃ r, clusterConfCheck c = .ok r := by
+  unfold docClusterConf at h
+  simp only [Bool.and_eq_true] at h
+  obtain ⟨⟨h1, h2⟩, h3⟩ := h
+  obtain ⟨a, ha⟩ := backendBasicCheck_doc h1
+  obtain ⟨b, hb⟩ := backendCheckCheck_doc h2
+  obtain ⟨g, hg⟩ := gslbBasicCheck_doc h3
+  unfold clusterConfCheck
+  simp only [ha, hb, hg, Res.bind]
+  exact ⟨_, rfl⟩
+
+theorem clusterToConfCheck_doc : ∀ l : List (String × ClusterConf), (∀ kv ∈ l, docClusterConf kv.2 = true) →
+    ∃ r, clusterToConfCheck l = .ok r
+  | [], _ => ⟨[], rfl⟩
+  | (n, c) :: rest, h => by
+    obtain ⟨c', hc'⟩ := clusterConfCheck_doc (h (n, c) (by simp))
+    obtain ⟨r, hr⟩ := clusterToConfCheck_doc rest fun kv hkv => h kv (by simp [hkv])
+    exact ⟨(n, c') :: r, by unfold clusterToConfCheck; simp [hc', hr, Res.bind]⟩
+
+theorem ccLoad_of_doc {f : Option ClusterFile} (h : docCluster f = true) : ∃ l, ccLoad f = .ok l := by
+  unfold docCluster at h
+  split at h
+  · rename_i v cfg
+    simp only [List.all_eq_true] at h
+    obtain ⟨cfg', hcfg⟩ := clusterToConfCheck_doc cfg h
+    have hb : forAllM (fun (kv : String × ClusterConf) => basicInit kv.2) cfg' = .ok () :=
+      (forAllM_ok_iff cfg').mpr (clusterToConfCheck_basicInit cfg cfg' hcfg)
+    exact ⟨cfg'.map (·.1), by simp [ccLoad, deref, Res.bind, hcfg, hb]⟩
+  · simp at h
+
+/-! ### name_conf, session ticket key, BalTable.Init never crash -/
+theorem nameLoad_ne_crash (f : NameFile) : nameLoad f ≠ .crash :=
+  forAllM_ne_crash _ fun _ _ => forAllM_ne_crash _ fun _ _ => failIf_ne_crash _
+
+theorem ticketLoad_ne_crash (d : Option TicketFile) (n : Nat) : ticketLoad d n ≠ .crash := by
+  unfold ticketLoad
+  cases d with
+  | none => exact failIf_ne_crash _
+  | some f => exact failIf_ne_crash _
+
+theorem gslbLoad_ok_clusters {g : GslbFile} {n : Nat} (h : gslbLoad g = .ok n) : g.clusters.isSome = true := by
+  unfold gslbLoad at h
+  split at h <;> simp_all
+
+theorem ctLoad_ok_config {c : CtFile} {n : Nat} (h : ctLoad c = .ok n) : c.config.isSome = true := by
+  unfold ctLoad at h
+  split at h <;> simp_all
+
+theorem balInit_ne_crash (g : GslbFile) (c : CtFile) : balInit g c ≠ .crash := by
+  unfold balInit
+  refine Res.bind_ne_crash (gslbLoad_ne_crash g) fun _ hg => Res.bind_ne_crash (ctLoad_ne_crash c) fun _ hc => ?_
+  refine Res.bind_ne_crash (deref_ne_crash (gslbLoad_ok_clusters hg)) fun cs _ =>
+    Res.bind_ne_crash (deref_ne_crash (ctLoad_ok_config hc)) fun cfg _ => ?_
+  exact Res.bind_ne_crash (forAllM_ne_crash _ fun _ _ => failIf_ne_crash _) fun _ _ => by simp
+
 end BfeVerif.C13
